@@ -7,6 +7,7 @@ import (
 
 	"verif/harness/internal/devx"
 	"verif/harness/internal/ev"
+	"verif/harness/internal/sched"
 	"verif/harness/internal/world"
 )
 
@@ -117,7 +118,11 @@ func c05JudgePrimed(p ssoP, primed int) c05Verdict {
 		_, again, _ := ssoBuild(p)
 		ssoRun(w, again)
 	}
-	o := ssoRun(w, req)
+	return c05JudgeOutcome(p, t, ssoRun(w, req))
+}
+
+// c05JudgeOutcome judges one classified reply against the ground truth of the request that produced it.
+func c05JudgeOutcome(p ssoP, t *ssoTruth, o ssoOutcome) c05Verdict {
 	v := c05Verdict{Accepted: o.Accepted}
 	if o.Rep.Panic != "" {
 		v.Class = "blocked_by_panic"
@@ -191,6 +196,9 @@ func init() { Registry["C05"] = runC05 }
 
 func runC05(ctx Ctx) int {
 	world.PinClock()
+	if rc, ok := concDispatch("C05", ctx); ok {
+		return rc
+	}
 	run := ev.NewRun("C05")
 	run.Rule = "full product of 50 signing configurations x every valid (base message, forgery operator) pair x deviation-bounded variation of 10 further message dimensions; one execution = fresh provider + one real SSO request; every forged message is additionally sent after its genuine counterpart and after an identical copy of itself on the same provider (histories of depth 2); accepted := CreateAuthRequest in the storage call log; oracle: accepted and (required or carries a signature value) implies the honest signature is intact and the fields handed to storage equal the signed projection"
 	run.Assume = []string{"RSA keys only; forgery operators are the listed ones (singly); signature wrapping variants beyond the two XSW shapes are outside", "pairs of forgery operators are not composed; breadth comes from crossing each operator with configuration and message-shape dimensions"}
@@ -266,6 +274,11 @@ func runC05(ctx Ctx) int {
 			}
 		}
 	})
+	cb, cs := 1, 90
+	if run.Tier == "thorough" {
+		cb, cs = 2, 1200
+	}
+	runConc(run, "C05", cb, cs)
 	run.Sample(items[0].p)
 	run.Sample(items[len(items)/3].p)
 	run.Sample(items[len(items)-1].p)
@@ -278,3 +291,70 @@ func runC05(ctx Ctx) int {
 	}(), k, len(c05Msg.Dims)))
 	return run.Finish()
 }
+
+
+// ---- concurrent part: a genuine and a forged (or unsigned) request of the same service provider at the same time -------------
+// Whatever the IdP shares between requests in flight (verification results, parsed keys, request forms) must not let the
+// forged one through. Every reply is judged by the sequential oracle on the storage calls made on behalf of that request.
+
+var c05ConcBodies = []struct {
+	Name string
+	P    ssoP
+}{
+	{"genuine-redirect-signed", ssoP{Sign: "redirect-sha256"}},
+	{"forged-redirect-signature-flipped", ssoP{Sign: "redirect-sha256", Forge: "sig-flip-mid"}},
+	{"forged-redirect-relaystate-changed", ssoP{Sign: "redirect-sha256", Forge: "relay-changed"}},
+	{"forged-redirect-request-edited", ssoP{Sign: "redirect-sha256", Forge: "request-edited"}},
+	{"forged-redirect-signed-by-attacker", ssoP{Sign: "redirect-sha256", Signer: "attacker"}},
+	{"genuine-enveloped-post", ssoP{Sign: "env-sha256", Transport: "post"}},
+	{"forged-enveloped-attribute-edited", ssoP{Sign: "env-sha256", Transport: "post", Forge: "attr-edit"}},
+	{"forged-enveloped-attacker-key-in-keyinfo", ssoP{Sign: "env-sha256", Transport: "post", Forge: "keyinfo-registered-attacker-key"}},
+	{"unsigned-redirect", ssoP{}},
+}
+
+func c05ConcScenarios() []concScenario {
+	var out []concScenario
+	for _, flag := range []string{"true", ""} {
+		for i := range c05ConcBodies {
+			for j := i; j < len(c05ConcBodies); j++ {
+				bi, bj := c05ConcBodies[i], c05ConcBodies[j]
+				genuine := func(p ssoP) bool { return p.Forge == "" && p.Signer == "" && p.Sign != "" }
+				if flag == "" && (genuine(bi.P) == genuine(bj.P)) && !(bi.P.Forge != "" && bj.P.Forge != "") {
+					continue // without a signing requirement only genuine x forged and forged x forged pairs are of interest
+				}
+				ps := [2]ssoP{bi.P, bj.P}
+				ps[0].SPFlag, ps[1].SPFlag = flag, flag
+				var truths [2]*ssoTruth
+				name := bi.Name + " || " + bj.Name
+				if flag != "" {
+					name += " [signing required]"
+				}
+				out = append(out, concScenario{
+					Name: name,
+					Build: func() (*world.World, []func() *world.Reply) {
+						w, r0, t0 := ssoBuild(ps[0])
+						_, r1, t1 := ssoBuild(ps[1])
+						truths = [2]*ssoTruth{t0, t1}
+						return w, []func() *world.Reply{func() *world.Reply { return w.Do(r0) }, func() *world.Reply { return w.Do(r1) }}
+					},
+					Judge: func(w *world.World, reps []*world.Reply, _ *sched.Exec) []concFinding {
+						var fs []concFinding
+						for t, rep := range reps {
+							v := c05JudgeOutcome(ps[t], truths[t], ssoOutcomeOf(rep))
+							if v.Clause != "" {
+								fs = append(fs, concFinding{Clause: v.Clause, Thread: t, Detail: fmt.Sprint(v.Detail)})
+							}
+							if genuine(ps[t]) && !v.Accepted {
+								fs = append(fs, concFinding{Clause: "genuine-signed-request-refused-while-another-request-is-in-flight", Thread: t, Detail: clip(rep.Body, 200)})
+							}
+						}
+						return fs
+					},
+				})
+			}
+		}
+	}
+	return out
+}
+
+func init() { concRegistry["C05"] = c05ConcScenarios }
